@@ -90,6 +90,13 @@ fn scenarios() -> Vec<Scenario> {
     let acct3 = acct2.clone();
     vec![
         Scenario { name: "mixed tree, two versions", versions: vec![v1.clone(), v2], links: vec![("ln", "d/dup1"), ("d/up", "..")], shrink: None },
+        Scenario {
+            name: "many small files (several combined blocks per hunk)",
+            versions: vec![vec![f("s/a", pattern(60, 1)), f("s/b", pattern(61, 2)), f("s/c", pattern(62, 3)), f("s/d", pattern(63, 4)), f("s/e", pattern(64, 5)),
+                f("s/f", pattern(65, 6)), f("s/g", pattern(66, 7)), f("s/h", pattern(67, 8)), f("t/i", pattern(68, 9)), f("t/j", pattern(69, 10)), f("t/k", pattern(70, 11))]],
+            links: vec![],
+            shrink: None,
+        },
         Scenario { name: "same-size rewrite in the same second", versions: vec![acct1, acct2, acct3], links: vec![], shrink: None },
         Scenario {
             name: "file shrinks during the backup",
@@ -104,6 +111,8 @@ fn options(i: usize) -> BackupOptions {
     match i {
         0 => BackupOptions { max_block_size: 4096, small_file_cap: 1000, max_entries_per_hunk: 3, ..BackupOptions::default() },
         1 => BackupOptions { max_block_size: 200, small_file_cap: 150, max_entries_per_hunk: 2, ..BackupOptions::default() },
+        // several combined-block flushes inside ONE index hunk group
+        3 => BackupOptions { max_block_size: 100, small_file_cap: 90, max_entries_per_hunk: 1000, ..BackupOptions::default() },
         _ => BackupOptions::default(),
     }
 }
@@ -268,7 +277,7 @@ fn search() -> Value {
     let n = scenarios().len();
     let mut tried = 0;
     for si in 0..n {
-        for oi in 0..3 {
+        for oi in 0..4 {
             tried += 1;
             if let Some(v) = guarded(si, oi) {
                 return v;
@@ -276,5 +285,5 @@ fn search() -> Value {
         }
     }
     json!({"found": false, "kind": "e2e_roundtrip", "evaluations": tried,
-        "explain": "3 histories x 3 option sets: validate silent, every version restores exactly, also after deleting b0000"})
+        "explain": "4 histories x 4 option sets: validate silent, every version restores exactly, also after deleting b0000"})
 }
